@@ -14,7 +14,14 @@ META = {
             "input->output is linear and time-invariant (induction over the sequence with explicit histories), zeroing "
             "restores the initial state; lpf output is a convex combination (stays in the hull of state and inputs) and "
             "settles geometrically to a constant input, hpf decays geometrically to 0 (closed forms + Coquelicot limits); "
-            "lpf_gen/hpf_gen lie strictly in (0,1) for positive fc, ts. Tie: bit-exact binary64 run of the same terms vs the C.",
+            "lpf_gen/hpf_gen lie strictly in (0,1) for positive fc, ts. Rounded instance Rnd_ops rnd (C16/FilterRound.v; overflow "
+            "outside the model): the lpf hull statement is REFUTED under rounding - proved for a 3-bit round-to-nearest-even "
+            "format (alpha=5/64, out=x=5 gives 4) and for IEEE binary64 itself (alpha=0x1.999999999999ap-4, out=x=13 gives "
+            "13+2^-49; the C returns the same) - and what is proved instead is: for monotone rnd with rnd 0=0, rnd 1=1 "
+            "(binary64 by Flocq) and alpha in [0,1] the filter is monotone in state and inputs over every history, preserves "
+            "sign, and keeps [lo,hi] invariant iff it does in the two constant corner cases; under the standard model "
+            "|rnd x-x|<=eps|x|+eta one step stays in the hull enlarged by ((1+eps)^3-1)A+eta((1+eps)^2 A+2(1+eps)+1), "
+            "A>=|lo|,|hi|. Tie: bit-exact binary64 run of the same terms vs the C.",
     "note": "Trusted: Coq kernel/vm_compute with primitive floats; real-number axioms listed by Print Assumptions; the "
             "'same term, different NumOps instance' argument; hand transcription coq/C16/FilterDefs.v validated bit for bit on "
             "the generated cases only; memmove modelled as list shift. Float saturation of gen for extreme fc*ts is checked on a grid, not proved.",
